@@ -1,0 +1,109 @@
+//go:build verif
+
+package fasthttp
+
+// Contracts for the redirect-following client code of client.go, checked by /verif/gocv
+// (comment-only; compiled to nothing).
+
+//@ spec lowerc(c int) int = (65 <= c && c <= 90) ? c + 32 : c
+//@ spec eqfoldASCII(a []byte, b []byte) bool = len(a) == len(b) && forall j in [0,len(a)): lowerc(a[j]) == lowerc(b[j])
+
+// isDomainOrSubdomainBytes: true only for the same host or a proper subdomain ("." + parent as suffix),
+// never for a host that merely ends in the parent's letters, never for IPv6 / zone literals.
+//@ func isDomainOrSubdomainBytes results r
+//@   property C20
+//@   pure
+//@   ensures[same-or-dot-suffix] r ==> eqfoldASCII(sub, parent) ||
+//@         (len(sub) > len(parent) && sub[len(sub)-len(parent)-1] == '.' && eqfoldASCII(sub[len(sub)-len(parent):], parent))
+//@   ensures[no-ip-literal-subdomain] r && !eqfoldASCII(sub, parent) ==> forall j in [0,len(sub)): sub[j] != ':' && sub[j] != '%'
+//@   ensures[same-host-accepted] eqfoldASCII(sub, parent) ==> r
+
+//@ func StatusCodeIsRedirect results r
+//@   property C20
+//@   pure
+//@   ensures r == (statusCode == 301 || statusCode == 302 || statusCode == 303 || statusCode == 307 || statusCode == 308)
+
+// stripSensitiveHeadersOnRedirect: when the target is not trusted, all six credential headers are deleted.
+//@ func stripSensitiveHeadersOnRedirect
+//@   property C20
+//@   mode skeleton
+//@   ghost strip bool
+//@   ghost dAuth bool = false
+//@   ghost dCookie bool = false
+//@   ghost dCookie2 bool = false
+//@   ghost dProxyAuthn bool = false
+//@   ghost dProxyAuthz bool = false
+//@   ghost dWWW bool = false
+//@   on call shouldStripSensitiveHeadersOnRedirect(ih, rh) -> s:
+//@     requires[trust-anchor-is-initial-host] sameSlice(ih, initialHost)
+//@     returns strip
+//@   on call RequestHeader.Del(_, k):
+//@     effect dAuth = dAuth || eq(k, "Authorization"); dCookie = dCookie || eq(k, "Cookie"); dCookie2 = dCookie2 || eq(k, "Cookie2")
+//@     effect dProxyAuthn = dProxyAuthn || eq(k, "Proxy-Authenticate"); dProxyAuthz = dProxyAuthz || eq(k, "Proxy-Authorization")
+//@     effect dWWW = dWWW || eq(k, "WWW-Authenticate")
+//@   end
+//@   ensures[all-six-deleted] strip ==> dAuth && dCookie && dCookie2 && dProxyAuthn && dProxyAuthz && dWWW
+
+// shouldStripSensitiveHeadersOnRedirect: strip exactly when the redirect host is not the initial host or a subdomain.
+//@ func shouldStripSensitiveHeadersOnRedirect results r
+//@   property C20
+//@   mode skeleton
+//@   ghost dom bool
+//@   ghost hostnameTaken bool = false
+//@   on call hostnameFromHostPortBytes:
+//@     effect hostnameTaken = true
+//@   on call isDomainOrSubdomainBytes(sub, parent) -> d:
+//@     requires[parent-is-initial-host] sameSlice(parent, initialHost) && hostnameTaken
+//@     returns dom
+//@   end
+//@   ensures[strip-iff-foreign] r == !dom
+
+// doRequestFollowRedirects: credentials may only be present while the target is trusted; the number of
+// transmissions is bounded; 303 becomes a body-less GET/HEAD; POST becomes GET on 301/302.
+//@ func doRequestFollowRedirects results statusCode body err
+//@   property C20
+//@   mode skeleton
+//@   nooverflow
+//@   ghost sends int = 0
+//@   ghost creds bool = true
+//@   ghost trusted bool = true
+//@   ghost ndTrust bool = false
+//@   ghost anchors int = 0
+//@   ghost isGet bool
+//@   ghost isHead bool
+//@   ghost isPost bool
+//@   ghost dCL bool = false
+//@   ghost dCT bool = false
+//@   ghost dTE bool = false
+//@   ghost dTrailer bool = false
+//@   ghost bodyGone bool = false
+//@   on call hostnameFromURLString:
+//@     effect anchors = anchors + 1
+//@   on call clientDoer.Do:
+//@     requires[credentials-only-to-trusted-host] creds ==> trusted
+//@     requires[bounded] sends <= maxRedirectsCount || maxRedirectsCount < 0
+//@     effect sends = sends + 1
+//@   on call stripSensitiveHeadersOnRedirect(r, ih, ru):
+//@     requires[anchored-to-initial-host] sameSlice(ih, initialHost) && anchors == 1
+//@     effect trusted = ndTrust; creds = creds && ndTrust
+//@   on call RequestHeader.IsGet -> r:
+//@     returns isGet
+//@   on call RequestHeader.IsHead -> r:
+//@     returns isHead
+//@   on call RequestHeader.IsPost -> r:
+//@     returns isPost
+//@   on call RequestHeader.SetMethod(_, m):
+//@     effect isGet = eq(m, "GET"); isHead = eq(m, "HEAD"); isPost = eq(m, "POST")
+//@   on call RequestHeader.Del(_, k):
+//@     effect dCL = dCL || eq(k, "Content-Length"); dCT = dCT || eq(k, "Content-Type")
+//@     effect dTE = dTE || eq(k, "Transfer-Encoding"); dTrailer = dTrailer || eq(k, "Trailer")
+//@   on call Request.ResetBody:
+//@     effect bodyGone = true
+//@   end
+//@   loop 1:
+//@     iter ndTrust = *; dCL = false; dCT = false; dTE = false; dTrailer = false; bodyGone = false
+//@     invariant[count] sends == redirectsCount && anchors == 1 && (redirectsCount <= maxRedirectsCount || redirectsCount == 0)
+//@     invariant[creds] creds ==> trusted
+//@     atend[see-other] statusCode == StatusSeeOther ==> (isGet || isHead) && dCL && dCT && dTE && dTrailer && bodyGone
+//@     atend[post-to-get] (statusCode == StatusMovedPermanently || statusCode == StatusFound) ==> !isPost
+//@   ensures[bounded-sends] maxRedirectsCount >= 0 ==> sends <= maxRedirectsCount + 1
